@@ -29,7 +29,9 @@ def gen(tier, rnd):
         mode = rnd.choice(["complete", "complete", "quit-midway", "kill-midway"])
         slow = rnd.choice([None, "update-sleep", "update-yield", "view-sleep", "cmds"])
         cases.append({"senders": senders, "mode": mode, "slow": slow, "gomaxprocs": rnd.choice([0, 0, 1, 2, 4, 16]),
-                      "filter": rnd.random() < 0.3})
+                      "filter": rnd.random() < 0.3, "slow_init": rnd.random() < 0.3,
+                      # the terminal is released (Exec) while senders are active, with an input that cannot be cancelled
+                      "exec": mode == "complete" and rnd.random() < 0.25})
     return cases
 
 
@@ -49,13 +51,18 @@ def scenarios(cases):
             # every Update returns a command whose result is another message (more traffic, from command goroutines)
             sc["update_default"] = {"cmd": P.cmd(5, ret=P.U(7))}
             sc["update"] = {"u:7": {}}
+        if c.get("slow_init"):
+            sc["init_ctl"] = {"sleep_us": 3000, "yield": 2}
+        if c.get("exec"):
+            script += [P.DO("input", bytes=[107]), P.DO("sleep", us=3000), P.W("idle"), P.DO("go-send", msg=P.B("exec")), P.DO("sleep", us=1000)]
         if c["mode"] == "complete":
-            script += [P.DO("start-senders"), P.DO("wait-senders"), P.W("idle"), P.DO("quit"), P.W("returned")]
+            script += [P.DO("start-senders"), P.DO("wait-senders"), P.DO("sleep", us=2000), P.W("idle"), P.DO("quit"), P.W("returned")]
         elif c["mode"] == "quit-midway":
             script += [P.DO("start-senders"), P.DO("sleep", us=400), P.DO("quit"), P.W("returned")]
         else:
             script += [P.DO("start-senders"), P.DO("sleep", us=400), P.DO("kill"), P.W("returned")]
-        s = P.scenario(i, script, opts=o, senders=[[P.U(t) for t in l] for l in c["senders"]], watchdog_ms=5000, **sc)
+        inp = {"kind": "reader", "end": "hold"} if c.get("exec") else None
+        s = P.scenario(i, script, opts=o, inp=inp, senders=[[P.U(t) for t in l] for l in c["senders"]], watchdog_ms=5000, **sc)
         if c["gomaxprocs"]:
             s["gomaxprocs"] = c["gomaxprocs"]
         else:
@@ -166,6 +173,7 @@ def run(res, tier, seed):
         "modes": {m: sum(1 for c in cases if c["mode"] == m) for m in ("complete", "quit-midway", "kill-midway")},
         "slow": {str(m): sum(1 for c in cases if c["slow"] == m) for m in (None, "update-sleep", "update-yield", "view-sleep", "cmds")},
         "gomaxprocs": {str(g): sum(1 for c in cases if c["gomaxprocs"] == g) for g in (0, 1, 2, 4, 16)},
+        "slow_init": sum(1 for c in cases if c.get("slow_init")), "with_exec_and_uncancellable_input": sum(1 for c in cases if c.get("exec")),
     }
     res.coverage["traces_validated_against_impl"] = len(cases)
     res.samples = [{"senders": len(c["senders"]), "msgs": sum(len(x) for x in c["senders"]), "mode": c["mode"], "slow": c["slow"]} for c in cases[:6]]
